@@ -55,6 +55,9 @@ CHECKS = {
  "C07": dict(cat="fault_enumeration", sec="4 C07", tech="fault injection at the persistence interface and at a wrapping database/sql driver, exhaustive single-fault positions + PRNG multi-fault histories, structural quiescence invariant (runtime monitoring)",
    text="For six scenarios (first use, growth, refresh, refused-stale, refused-bad-proof, first-use-shaped fork on a populated log) every storage call position (learned from a fault-free dry run) x every fault kind is injected singly at the LogStatePersistence interface (over in-memory and SQLite) and at the SQL driver (begin/query/exec/commit/rollback, failed-before and reported-failed-after; :memory: and file), followed by PRNG multi-fault histories. After each faulted request: pool/handle quiescence (db.Stats().InUse==0, no open write handle), fault-free read-back, nil error => read returns exactly the returned bytes, refusable requests stay refused with the old checkpoint in place, then an honest next step from the committed state must be accepted; a call that never returns with the pool exhausted and nothing else running is a wedge.",
    note="Faults stay inside the contract of the layer they impersonate (failed Commit really rolls back); ErrBadConn not injected; kernel-level ENOSPC/EIO not part of this tier."),
+ "C06": dict(cat="fault_enumeration", sec="4 C06", tech="process kill at every driver-operation boundary (self-kill inside a wrapping SQL driver) and at every storage syscall (strace signal injection), store reopened and judged by an old-or-new monitor (runtime monitoring / crash-point enumeration)",
+   text="A child process runs the real Witness on file-backed SQLite (wrapping driver, production pool setting, thread-locked) and acknowledges each outcome with one write(2). It is SIGKILLed (1) at every driver operation (begin/query/exec/commit/rollback, before and after the real call) of five scripts (first use, growth, refresh, growth after a refused update, two logs interleaved) on a fresh and on a populated table, (2) at every storage syscall (pwrite64/fsync/fdatasync/unlink/ftruncate) via strace, (3, thorough) at 3000 random instants. This process then reopens the file with the plain production driver: per log the stored checkpoint must be hash-equal to the last acknowledged one or be the complete, validly cosigned form of the single in-flight request; a fork must then be refused and the honest next step accepted through the real Update.",
+   note="Crash = SIGKILL on a live kernel; power loss/torn writes/missing fsync are out of reach. exhaustive=true refers to the enumerated operation and syscall boundaries of these scripts."),
 }
 
 NOT_YET = "check not built yet in this session (planned, see DESIGN.md section 4)"
